@@ -18,8 +18,8 @@
   `gsoSolveWith refuse`: `refuse = true` is the code as it is since f703dbb (`solve()` throws
   `BadRegularization` when `icgs.error() != 0`, after x and r have been copied and `is_solved`
   set, as AdjCholDec does; a FRESH object therefore throws on every query); `refuse = false`
-  is the code before that commit (`ICGS::error()` was never read: finding F6), kept for the
-  recorded witness.
+  is the code before that commit (`ICGS::error()` was never read: finding F6; witness in
+  corpus/C02/F6-gso-nonresolving-1.txt) — no obligation refers to it any more.
 
   Core Lean only.
 -/
@@ -91,8 +91,5 @@ variable {K : Type} [Scalar K]
 
 /-- answers of a fresh `AdjGSO` object on problem `p` (dense A, b, unit covariance) -/
 def gsoSolve : Solver K := gsoSolveWith true
-
-/-- the code before f703dbb (finding F6): `icgs.error()` ignored -/
-def gsoSolveBefore : Solver K := gsoSolveWith false
 
 end Gama.Ls
